@@ -123,7 +123,7 @@ def body_visit(s, ctxname, tolerant):
     for k, o, kw in got:
         require(id(o) not in seen, 'an object was visited twice')
         seen.add(id(o))
-    return len(got) >= 3
+    return len(got) >= 2
 
 
 def conditions(tier):
@@ -135,7 +135,7 @@ def conditions(tier):
     for ctx, tol, n in ([('S', False, 2), ('S', True, 2), ('D', True, 2)] if quick else
                         [('S', False, 3), ('S', True, 3), ('SU', True, 3), ('D', True, 3), ('D', False, 3)]):
         conds.append(Cond('visit_%s_%s_le%d' % (ctx, 'tol' if tol else 'strict', n), 's: str', ['len(s) <= %d' % n],
-                          'body_visit(s, %r, %r)' % (ctx, tol), timeout=T, smoke=SM, twin=False))
+                          'body_visit(s, %r, %r)' % (ctx, tol), timeout=T, smoke=SM, twin=True))
     if quick:
         for tag, pre in ord_partition('s', 0, (36, 37, 92, 93, 123)):
             conds.append(Cond('visit_S_tol_eq3_' + tag, 's: str', ['len(s) == 3', pre], "body_visit(s, 'S', True)",
@@ -149,7 +149,7 @@ def conditions(tier):
             variants = hole_variants(sk0, 1)[:1] if quick else hole_variants(sk0, 2)
             for tag, sk in variants:
                 conds.append(Cond('skel_%s_%s_%s' % (ctxn, nm, tag), 's: str', skel_pre(sk), 'body_visit(s, %r, False)' % ctxn,
-                                  timeout=T, cost=2, twin=(tag in ('all', 'h0')), smoke=[dict(s=skel_fill(sk))],
+                                  timeout=T, cost=2, twin=False, smoke=[dict(s=skel_fill(sk))],
                                   descr='skeleton %r (? = any character)' % sk))
                 if not quick:
                     conds.append(Cond('skeltol_%s_%s_%s' % (ctxn, nm, tag), 's: str', skel_pre(sk),
